@@ -680,6 +680,12 @@ var profiles = []profile{
 		return world.SHA256
 	}},
 	{"C12", nil, func(int) uint { return world.SHA256 }},
+	{"variants", nil, func(i int) uint {
+		if i%3 == 2 {
+			return world.SHA512
+		}
+		return world.SHA256
+	}},
 	{"C11-windows", func(i int, dl int64) world.GenOpts {
 		return world.GenOpts{MinLen: 3, MaxLen: 9, Windows: true, Forged: true, EndDeactivate: 40, TimeDelta: dl}
 	}, func(i int) uint {
@@ -688,6 +694,52 @@ var profiles = []profile{
 		}
 		return world.SHA256
 	}},
+}
+
+// Operations outside the alphabet of the resolution checks, built with the same builder (world.Spec fields that the parser
+// checks C10 / C12 use): a deactivate whose signed suffix is another one, JWKs with a nonce (right and wrong size), other
+// spellings of the curve and of the signature algorithm.  For the indices in "unstated" the builder's by-construction flags
+// do not claim anything (world.Build does not model these rules): the case then carries the real record in both places.
+func variantEvents(d *world.DID, rng *rand.Rand) (evs []world.Event, unstated map[int]bool) {
+	evs = []world.Event{{Op: d.Create, Legit: true, Label: "create"}}
+	unstated = map[int]bool{}
+	add := func(s world.Spec, claimed bool) {
+		if !claimed {
+			unstated[len(evs)] = true
+		}
+		evs = append(evs, world.Event{Op: world.Build(s), Label: "variant:" + s.Label})
+	}
+	nonce := func(n int) string {
+		b := make([]byte, n)
+		rng.Read(b)
+		return rawURL.EncodeToString(b)
+	}
+	next := d.Stranger(1)
+	s := d.ValidDeactivate("D.othersuffix")
+	s.SignedSfx = "EiOtherSuffix"
+	add(s, true)
+	s = d.ValidUpdate(next, "U.nonce")
+	s.Nonce = nonce(16)
+	add(s, true)
+	s = d.ValidUpdate(next, "U.nonce-wrong-size")
+	s.Nonce = nonce(15)
+	add(s, false)
+	s = d.ValidUpdate(next, "U.crv-lowercase")
+	s.CrvSpell = strings.ToLower(s.SignedKey.Type.Crv())
+	add(s, false)
+	s = d.ValidUpdate(next, "U.crv-uppercase")
+	s.CrvSpell = strings.ToUpper(s.SignedKey.Type.Crv())
+	add(s, false)
+	s = d.ValidUpdate(next, "U.alg-lowercase")
+	s.HeaderAlg = strings.ToLower(s.SignWith.Type.Alg())
+	add(s, false)
+	s = d.ValidRecover(d.Stranger(2), next, "R.nonce")
+	s.Nonce = nonce(16)
+	add(s, true)
+	s = d.ValidRecover(d.Stranger(2), next, "R.crv-uppercase")
+	s.CrvSpell = strings.ToUpper(s.SignedKey.Type.Crv())
+	add(s, false)
+	return evs, unstated
 }
 
 func windowClass(o *obs, t uint64, dl int64) string {
@@ -725,9 +777,9 @@ func main() {
 	nHist := flag.Int("histories", 0, "number of histories (0 = tier default)")
 	flag.Parse()
 	world.Must(os.MkdirAll(*outDir, 0o755))
-	n, perFile, hPerFile, hEvery := 250, 0, 0, 4
+	n, perFile, hPerFile, hEvery := 180, 0, 0, 4
 	if *tier == "thorough" {
-		n, perFile, hPerFile, hEvery = 2500, 300, 40, 4
+		n, perFile, hPerFile, hEvery = 1800, 300, 40, 4
 	}
 	if *nHist > 0 {
 		n = *nHist
@@ -750,7 +802,11 @@ func main() {
 		var evs []world.Event
 		var o world.GenOpts
 		note := ""
-		if pf.opts == nil {
+		unstated := map[int]bool{}
+		if pf.name == "variants" {
+			evs, unstated = variantEvents(d, e.rng)
+			o = world.GenOpts{TimeDelta: e.dl}
+		} else if pf.opts == nil {
 			evs, note = world.CycleHistory(d, e.rng)
 			o = world.GenOpts{TimeDelta: e.dl}
 		} else {
@@ -796,6 +852,9 @@ func main() {
 			args := factsGallina(e, p, ob, origin)
 			stated := p.Gallina(e.tb, e.md)
 			real := realGallina(e, p, ob)
+			if unstated[k] {
+				stated = real
+			}
 			text := emit.App("Build_bcase", append(append([]string{"P"}, args...), "T", stated, real)...)
 			ty := tyName(p.Op.Spec.Type)
 			count("type", ty)
@@ -813,7 +872,10 @@ func main() {
 			count("delta_identity_from", ob.deltaFrom)
 			count("origin_identity_from", ob.originFrom)
 			diffs := statedDiffs(p, ob)
-			if len(diffs) == 0 {
+			if unstated[k] {
+				diffs = nil
+				count("stated_vs_real", "builder makes no statement (variant)")
+			} else if len(diffs) == 0 {
 				count("stated_vs_real", "equal")
 			}
 			for _, df := range diffs {
@@ -844,10 +906,10 @@ func main() {
 				}
 				example = map[string]interface{}{
 					"create_request_hex": hex.EncodeToString(c0.Op.Request), "create_stated": c0.Gallina(e.tb, e.md),
-					"create_facts": fmt.Sprintf("valid=%v kf=(%v,%v) crypto_ok=%v patch_applies=%v coords=%s", ob0.valid, ob0.onCurve, ob0.joseOK, ob0.cryptoOK, ob0.patchApplies, coordsGallina(e, c0, ob0)),
+					"create_facts":       fmt.Sprintf("valid=%v kf=(%v,%v) crypto_ok=%v patch_applies=%v coords=%s", ob0.valid, ob0.onCurve, ob0.joseOK, ob0.cryptoOK, ob0.patchApplies, coordsGallina(e, c0, ob0)),
 					"update_request_hex": exampleHex, "update_stated": stated, "update_real": real,
 					"update_facts": fmt.Sprintf("valid=%v kf=(%v,%v) crypto_ok=%v patch_applies=%v coords=%s", ob.valid, ob.onCurve, ob.joseOK, ob.cryptoOK, ob.patchApplies, coordsGallina(e, p, ob)),
-					"commitments": tabOf(ob0.updC, ob0.recC, ob.revealC, ob.updC),
+					"commitments":  tabOf(ob0.updC, ob0.recC, ob.revealC, ob.updC),
 				}
 			}
 		}
@@ -1004,7 +1066,7 @@ func letter(label string) string {
 	if parts[0] == "forged" && len(parts) == 3 {
 		return "forged:" + parts[2]
 	}
-	if parts[0] == "fork" || parts[0] == "cycle" || parts[0] == "ext" {
+	if parts[0] == "fork" || parts[0] == "cycle" || parts[0] == "ext" || parts[0] == "variant" {
 		return label
 	}
 	return parts[0]
